@@ -27,7 +27,9 @@ PRELUDE = r'''
 #include <stdlib.h>
 #define VACUITY_PROBE() __CPROVER_assert(0, "vacuity-probe")
 unsigned nondet_uint(void); unsigned short nondet_ushort(void); _Bool nondet_bool(void); int nondet_int(void); unsigned long nondet_ulong(void);
+#ifndef NTOK
 #define NTOK 3
+#endif
 /* ---- ghost: the raw text as tokens ---- */
 char g_raw[4096]; unsigned g_ntok; unsigned g_off[NTOK + 1]; unsigned short g_tag[NTOK]; int g_cur = -1;   /* g_off[i]..g_off[i+1] is token i; g_cur: the token last handed out */
 /* ---- ghost: what the decoder did ---- */
@@ -211,6 +213,8 @@ UNIT = dict(
         dict(name='part_strict', harness='h_part_strict', properties=['C04', 'C01'], solvers=['cadical', 'z3'], timeout=dict(quick=600, thorough=1800), floor=6, level='bounded', unwind=5, object_bits=10),
         dict(name='part_length_c03', harness='h_part_length_c03', properties=['C03'], solvers=['cadical', 'z3'], timeout=dict(quick=600, thorough=1800), floor=1, level='bounded', unwind=5, object_bits=10),
         dict(name='part_length_c06', harness='h_part_length_c06', properties=['C06'], solvers=['cadical', 'z3'], timeout=dict(quick=600, thorough=1800), floor=2, level='bounded', unwind=5, object_bits=10),
+        dict(name='part_strict_5_tokens', harness='h_part_strict', tier='thorough', cc_flags=['-DNTOK=5'], properties=['C04', 'C01'], solvers=['cadical', 'z3'], timeout=dict(quick=1800, thorough=3600), floor=6, level='bounded', unwind=8, object_bits=10),
+        dict(name='part_permissive_5_tokens', harness='h_part_permissive', tier='thorough', cc_flags=['-DNTOK=5'], properties=['C05'], solvers=['cadical', 'z3'], timeout=dict(quick=1800, thorough=3600), floor=3, level='bounded', unwind=8, object_bits=10),
         dict(name='part_permissive', harness='h_part_permissive', properties=['C05'], solvers=['cadical', 'z3'], timeout=dict(quick=600, thorough=1800), floor=3, level='bounded', unwind=5, object_bits=10),
     ],
     trusted_base=['ASSUMED: the tokeniser hands out the ghost tokens (its safety is K-tok\'s subject); Presence::find / end, trait bit operations, F8MetaCntx::find_be, the field instantiator, '
